@@ -638,6 +638,70 @@ def _root_logger(init_params):
 
 
 
+# ----------------------------------------------------------------------------- aware_now(): when the UTC offset is looked up
+def _tz_lookup():
+    """`Lookup` of the tzinfo `_datetime.aware_now()` attaches: `.perCall` when the function takes ONE reading of the clock
+    (`datetime_.now()`), derives the tzinfo from THAT reading's timestamp through the undecorated, cache-free `_get_tzinfo`
+    and combines date, time and tzinfo of the same reading; `.atImport` when the tzinfo is a module-level object; `.other`
+    for anything else.  Locals may be named and inlined freely (data flow, not spelling)."""
+    dtree, _ = parse_module("_datetime.py")
+    imports = _imports(dtree)
+    dt_names = [k for k, v in imports.items() if v == ("datetime", "datetime")]
+    an = find_func(dtree, "aware_now")
+    if an.decorator_list or an.args.args or isinstance(an, ast.AsyncFunctionDef):
+        raise Unsupported("aware_now signature/decorators")
+    b = _body(an)
+    if not b or not isinstance(b[-1], ast.Return) or b[-1].value is None:
+        raise Unsupported("aware_now does not end in a return")
+    defs = {}
+    for st in b[:-1]:
+        if isinstance(st, ast.Assign) and len(st.targets) == 1 and isinstance(st.targets[0], ast.Name) \
+                and st.targets[0].id not in defs:
+            defs[st.targets[0].id] = st.value
+        else:
+            raise Unsupported("aware_now statement " + _src(st))
+    now_calls = [n for n in ast.walk(an) if isinstance(n, ast.Call) and isinstance(n.func, ast.Attribute) and n.func.attr == "now"
+                 and isinstance(n.func.value, ast.Name) and n.func.value.id in dt_names and not n.args and not n.keywords]
+    clock = [n for n in ast.walk(an) if isinstance(n, ast.Call) and isinstance(n.func, ast.Attribute)
+             and (n.func.attr in ("now", "utcnow", "today", "fromtimestamp")
+                  or (n.func.attr in ("time", "time_ns", "monotonic") and _src(n.func.value) == "time"))]
+    if len(now_calls) != 1 or len(clock) != 1:
+        raise Unsupported("aware_now does not take exactly one reading of the clock")
+    now_local = [k for k, v in defs.items() if v is now_calls[0]]
+    if len(now_local) != 1:
+        raise Unsupported("aware_now: the clock reading is not kept in a local")
+    NOW = now_local[0]
+
+    class Inline(ast.NodeTransformer):
+        def visit_Name(self, node):
+            if isinstance(node.ctx, ast.Load) and node.id in defs and node.id != NOW:
+                return self.visit(ast.parse(_src(defs[node.id]), mode="eval").body)
+            return node
+    ret = _src(Inline().visit(ast.parse(_src(b[-1].value), mode="eval").body)).replace(NOW, "NOW")
+    cls_names = [n.name for n in dtree.body if isinstance(n, ast.ClassDef)] + dt_names
+    for c in cls_names:
+        pre = "%s.combine(NOW.date(), NOW.time().replace(tzinfo=" % c
+        if ret.startswith(pre) and ret.endswith("))"):
+            tz = ret[len(pre):-2]
+            break
+    else:
+        raise Unsupported("aware_now returns " + ret)
+    fns = {}
+    for nm in ("_get_tzinfo", "_fallback_tzinfo"):
+        f = find_func(dtree, nm)
+        cached = bool(f.decorator_list) or any(isinstance(x, (ast.Global, ast.Nonlocal)) for x in ast.walk(f)) \
+            or any(isinstance(x, (ast.Subscript, ast.Attribute)) and isinstance(x.ctx, ast.Store) for x in ast.walk(f)) \
+            or any(d is not None for d in f.args.defaults + f.args.kw_defaults)
+        fns[nm] = cached
+    modlevel = {t.id for n in dtree.body if isinstance(n, ast.Assign) for t in n.targets if isinstance(t, ast.Name)}
+    if tz == "_get_tzinfo(NOW.timestamp())":
+        return "other" if (fns["_get_tzinfo"] or fns["_fallback_tzinfo"]) else "perCall"
+    if tz in modlevel:
+        return "atImport"
+    return "other"
+
+
+
 def generate():
     errors = []
     body = "import LoguruModel.Frames.Base\nset_option linter.unusedVariables false\nnamespace Frames.Gen\nopen Frames\n\n"
@@ -951,6 +1015,8 @@ def generate():
         body += "/-- when `_log` looks the calling thread / process up -/\n"
         body += "def threadLookup : Lookup := .%s\n" % lookup_of("thread", "current_thread()")
         body += "def processLookup : Lookup := .%s\n\n" % lookup_of("process", "current_process()")
+        body += "/-- when `aware_now()` (loguru/_datetime.py) looks the local UTC offset up -/\n"
+        body += "def tzLookup : Lookup := .%s\n\n" % _tz_lookup()
         term, typ = Tr({"current_datetime": ("now", "int"), "start_time": ("start", "int")}).tr(defs["elapsed"])
         body += "/-- `elapsed = %s` -/\n" % _src(defs["elapsed"])
         body += "def elapsed (now start : Int) : Int := %s\n\n" % term
@@ -996,6 +1062,27 @@ def generate():
             return call.args[params.index(amap[attr])]
 
         cf, ct, cp = ctor("RecordFile", ["name", "path"]), ctor("RecordThread", ["id", "name"]), ctor("RecordProcess", ["id", "name"])
+
+        def fmt_field(cname):
+            """the attribute a handler format `{thread}` / `{process}` / `{file}` renders: `__format__` returns
+            `self.<attr>.__format__(spec)` (or `format(self.<attr>, spec)`)"""
+            c = find_class(rtree, cname)
+            fm = [f for f in c.body if isinstance(f, ast.FunctionDef) and f.name == "__format__"]
+            if len(fm) != 1 or fm[0].decorator_list or len(fm[0].args.args) != 2:
+                raise Unsupported("%s.__format__" % cname)
+            me, spec = [a.arg for a in fm[0].args.args]
+            b_ = _body(fm[0])
+            if len(b_) != 1 or not isinstance(b_[0], ast.Return):
+                raise Unsupported("%s.__format__ body" % cname)
+            v = b_[0].value
+            for attr in ("id", "name", "path"):
+                if _src(v) in ("%s.%s.__format__(%s)" % (me, attr, spec), "format(%s.%s, %s)" % (me, attr, spec)):
+                    return attr
+            return "?"
+        body += "/-- the attribute `{file}`, `{thread}`, `{process}` render in a handler format (`__format__` of _recattrs.py) -/\n"
+        body += "def recFormat : List (Py.Str × Py.Str) := [%s]\n\n" % ", ".join(
+            "(%s, %s)" % (lean_chars(k), lean_chars(fmt_field(c_))) for k, c_ in
+            (("file", "RecordFile"), ("thread", "RecordThread"), ("process", "RecordProcess")))
         srcs = [
             ("recName", fields["name"]), ("recFunction", fields["function"]), ("recLine", fields["line"]),
             ("recModule", fields["module"]),
@@ -1034,8 +1121,36 @@ def generate():
         cm_flag = _src(cbody[-1].value) == "Catcher(True)"
         cm = {f.name: f for f in catcher.body if isinstance(f, (ast.FunctionDef, ast.AsyncFunctionDef))}
         ini = cm["__init__"]
-        if [a.arg for a in ini.args.args] != ["self", "from_decorator"] or [_src(s) for s in ini.body] != ["self._from_decorator = from_decorator"]:
+        if [a.arg for a in ini.args.args] != ["self", "from_decorator"] or ini.decorator_list:
             raise Unsupported("Catcher.__init__")
+        init_attrs = {}
+        for s_ in ini.body:
+            if isinstance(s_, ast.Assign) and len(s_.targets) == 1 and isinstance(s_.targets[0], ast.Attribute) \
+                    and _src(s_.targets[0].value) == "self" and s_.targets[0].attr not in init_attrs \
+                    and (_src(s_.value) == "from_decorator" or _const_int(s_.value) is not None):
+                init_attrs[s_.targets[0].attr] = s_.value
+            else:
+                raise Unsupported("Catcher.__init__ statement " + _src(s_))
+        if "_from_decorator" not in init_attrs or _src(init_attrs["_from_decorator"]) != "from_decorator" \
+                or sum(1 for v in init_attrs.values() if _src(v) == "from_decorator") != 1:
+            raise Unsupported("Catcher.__init__: self._from_decorator = from_decorator")
+        # state of the (shared) Catcher object / of the enclosing closure written after construction
+        later = []
+        for f_ in catcher.body:
+            if f_ is ini:
+                continue
+            todo_ = [(f_, ("self", "catcher"))]
+            while todo_:
+                x, bases_ = todo_.pop()
+                if isinstance(x, ast.ClassDef):
+                    bases_ = ("catcher",)          # inside a nested class `self` is another object
+                if isinstance(x, ast.Attribute) and isinstance(x.ctx, (ast.Store, ast.Del)) and isinstance(x.value, ast.Name) \
+                        and x.value.id in bases_:
+                    later.append(x.attr)
+                elif isinstance(x, (ast.Nonlocal, ast.Global)):
+                    later.extend(x.names)
+                todo_.extend((c_, bases_) for c_ in ast.iter_child_nodes(x))
+        later = sorted(set(later))
         ex = cm["__exit__"]
         if ex.decorator_list or isinstance(ex, ast.AsyncFunctionDef):
             raise Unsupported("Catcher.__exit__ decorated/async")
@@ -1077,6 +1192,26 @@ def generate():
                 raise Unsupported("__exit__: _frames reassigned")
         elif kwonly:
             raise Unsupported("__exit__ keyword-only parameters %r" % kwonly)
+        # an integer attribute of the object that the depth arithmetic reads instead of a parameter: per-OBJECT state
+        frames_src, frames_attr = "param", None
+        depth_stmts = [st_ for st_ in etop if any(isinstance(n_, ast.Name) and n_.id == "depth" and isinstance(n_.ctx, ast.Store)
+                                                  for n_ in ast.walk(st_))]
+        for st_ in depth_stmts:
+            for x in ast.walk(st_):
+                if isinstance(x, ast.Attribute) and isinstance(x.ctx, ast.Load) and _src(x.value) == "self" \
+                        and x.attr != "_from_decorator":
+                    if x.attr not in init_attrs or _const_int(init_attrs[x.attr]) is None or "_frames" in env \
+                            or (frames_attr not in (None, x.attr)):
+                        raise Unsupported("__exit__: depth arithmetic reads self.%s" % x.attr)
+                    frames_src, frames_attr = "selfAttr", x.attr
+        if frames_attr is not None:
+            env["self." + frames_attr] = ("frames", "int")
+            frames_default = _const_int(init_attrs[frames_attr])
+        body += "/-- attributes `Catcher.__init__` sets; attributes / closure variables any other method assigns -/\n"
+        body += "def catcherInitAttrs : List Py.Str := [%s]\n" % ", ".join(lean_chars(x) for x in init_attrs)
+        body += "def catcherLaterWrites : List Py.Str := [%s]\n" % ", ".join(lean_chars(x) for x in later)
+        body += "/-- where `__exit__` reads the extra-frame correction from: a parameter of the call or the (shared) object -/\n"
+        body += "def exitFramesSrc : FramesSrc := .%s\n" % frames_src
         body += "/-- default of the keyword-only `_frames` parameter of `Catcher.__exit__` (0 when absent) -/\n"
         body += "def exitFramesDefault : Int := (%d : Int)\n" % frames_default
         # every statement of __exit__ that assigns depth after the unpacking, executed symbolically in order:
@@ -1274,13 +1409,34 @@ def generate():
         ax = cm.get("__aexit__")
         if ax is not None:
             ab = _body(ax)
-            if ax.decorator_list or len(ab) != 1 or not isinstance(ab[0], ast.Return) \
-                    or not isinstance(ab[0].value, ast.Call) or _src(ab[0].value.func) != "self.__exit__":
+            if ax.decorator_list:
+                raise Unsupported("__aexit__ decorated")
+            # the single call `self.__exit__(type_, value, traceback_[, _frames=K])` made from __aexit__'s OWN frame
+            # (directly returned, or inside a try/finally that sets and resets per-object state around it)
+            acalls, holder_stmt = [], None
+            for top_st in ab:
+                todo_ = [top_st]
+                while todo_:
+                    n_ = todo_.pop()
+                    if isinstance(n_, (ast.FunctionDef, ast.AsyncFunctionDef, ast.ClassDef, ast.Lambda)):
+                        raise Unsupported("__aexit__: nested definition")
+                    if isinstance(n_, ast.Call) and _src(n_.func) == "self.__exit__":
+                        acalls.append(n_)
+                        holder_stmt = top_st
+                    todo_.extend(ast.iter_child_nodes(n_))
+            if len(acalls) != 1 or sum(1 for n_ in ast.walk(ax) if isinstance(n_, ast.Call) and "__exit__" in _src(n_.func)) != 1:
                 raise Unsupported("__aexit__ shape")
-            acall = ab[0].value
+            acall = acalls[0]
             if [_src(x) for x in acall.args] != ["type_", "value", "traceback_"]:
                 raise Unsupported("__aexit__ arguments " + _src(acall))
             fr = frames_default
+            if frames_src == "selfAttr":
+                for top_st in ab[:ab.index(holder_stmt)]:
+                    if isinstance(top_st, ast.Assign) and len(top_st.targets) == 1 \
+                            and _src(top_st.targets[0]) == "self." + frames_attr and _const_int(top_st.value) is not None:
+                        fr = _const_int(top_st.value)
+                    elif any(isinstance(x, ast.Attribute) and x.attr == frames_attr for x in ast.walk(top_st)):
+                        raise Unsupported("__aexit__: self.%s set in an unknown way" % frames_attr)
             for kw in acall.keywords:
                 if kw.arg == "_frames" and isinstance(kw.value, ast.Constant) and type(kw.value.value) is int \
                         and "_frames" in env:
@@ -1344,4 +1500,4 @@ def generate():
     except (Unsupported, SyntaxError, KeyError, AttributeError, IndexError, ValueError) as e:
         errors.append("%s: %s" % (type(e).__name__, e))
     body += "\nend Frames.Gen\n"
-    return emit("Frames", body, ["loguru/_logger.py", "loguru/_get_frame.py", "loguru/_recattrs.py", "loguru/__init__.py"], errors)
+    return emit("Frames", body, ["loguru/_logger.py", "loguru/_get_frame.py", "loguru/_recattrs.py", "loguru/__init__.py", "loguru/_datetime.py"], errors)
